@@ -24,4 +24,4 @@ require (
 	golang.org/x/sys v0.30.0 // indirect
 )
 
-replace github.com/flamego/flamego => /tmp/flamego-seed-4fsk_oqr
+replace github.com/flamego/flamego => /tmp/flamego-seed-qzk3fa5a
